@@ -535,7 +535,7 @@ class TypeInstance(Type):
                 return True
             if (b.upper or b.lower) and not a.basic:
                 return False
-            if b.upper and b.upper.subtype(a.operator, strict=True):
+            if b.upper and not a.operator.subtype(b.upper):
                 return False
             if b.lower and (b.lower.subtype(a.operator) is False):
                 return False
@@ -546,7 +546,7 @@ class TypeInstance(Type):
                 return True
             if (a.upper or a.lower) and not b.basic:
                 return False
-            if a.lower and b.operator.subtype(a.lower, strict=True):
+            if a.lower and not a.lower.subtype(b.operator):
                 return False
             if a.upper and (a.upper.subtype(b.operator) is False):
                 return False
